@@ -268,6 +268,26 @@ PROPS["C19"] = {
     "assumptions": ["engine-only (schedules are not replayed natively)"],
 }
 
+PROPS["C18"] = {
+    "harnesses": [
+        {"pkg": "kv", "dir": "kv", "entry": "VerifH_C18_roundtrip",
+         "quick": {"params": "alllengths=0", "workers": 14, "timeout": 1200},
+         "thorough": {"params": "alllengths=1", "workers": 16, "timeout": 3600}},
+        {"pkg": "kv", "dir": "kv", "entry": "VerifH_C18_legacy", "reach": ["end", "legacy-readable"],
+         "quick": {"params": "alllengths=0", "workers": 14, "timeout": 1200},
+         "thorough": {"params": "alllengths=1", "workers": 16, "timeout": 3600}},
+        {"pkg": "kv", "dir": "kv", "entry": "VerifH_C18_arbitrary", "reach": ["end", "accepted"],
+         "quick": {"params": "maxbuf=72", "workers": 16, "timeout": 1200}},
+        {"pkg": "kv", "dir": "kv", "entry": "VerifH_C18_wrapping",
+         "quick": {"workers": 1, "timeout": 600}},
+    ],
+    "bounds": {"quick": "plaintext lengths {0,1,15,16,17,31,32,33,47,48,63,64,65,72} with symbolic bytes and a symbolic 32-byte key; arbitrary ciphertext buffers of every length 0..72; a one-key table with a tagging encryptor",
+               "thorough": "every plaintext length 0..72"},
+    "outside": "confidentiality and unforgeability (cryptographic assumptions: the primitives are uninterpreted functions with their algebraic contracts only); internals of argon2/blake2b/salsa20/poly1305; a foreign box that secretbox.Open accepts is not excluded by the algebra",
+    "assumptions": ["secretbox.Open(Seal(m,n,k),n,k)=(m,true); XORKeyStream out[i]=in[i] xor KS_i(nonce,key) restarting at offset 0 per call; poly1305.Verify(mac,c,k) <=> mac=Sum(c,k); blake2b/HSalsa20/argon2 deterministic functions of their inputs",
+                    "counterexamples and sample paths are replayed natively against the real primitives (golang.org/x/crypto)"],
+}
+
 # Properties not (yet) claimed, each with the reason.  Kept current by hand.
 NOT_APPLICABLE = {
     "C%02d" % i: "check not built yet in this session (breadth-first build order, DESIGN §9); no claim is made" for i in range(1, 21)
